@@ -7,7 +7,9 @@ BINS = ["wrt", "dsim"]
 RULE = ("dsim scenarios on the fixed two-participant template: KEEP_LAST(1..3) writer (mostly RELIABLE, max_blocking_time from "
         "{0, 1 ns, 30..400 ms, 1 s, infinite}), reader reliable from the start / best-effort / late joiner (volatile or "
         "TRANSIENT_LOCAL) / absent; 4-12 steps of writes to 1-3 instances interleaved with `hold ACKNACK`, `release`, "
-        "`drop-if ACKNACK [times=n]`, `drop-next n DATA`, `advance`; `now` before and after every write; a final drain "
+        "`drop-if ACKNACK [times=n]`, `drop-next n DATA`, `advance`, `unregister`; a third of the writes carry an explicit source timestamp "
+        "(5 s / 1 s in the past, 0, 3 s / 20 s in the future); a fifth of the blocking cases park a write with `write-bg`, unregister its "
+        "instance and `join`; `now` before and after every write; a final drain "
         "(clear-faults, release, advance 2 s, take); half of the cases also compare the complete datagram trace. "
         "Non-trivial = RELIABLE KEEP_LAST writer with a matched reliable reader and at least one write issued while "
         "acknowledgements were withheld or data was being dropped, or that had to wait, or that timed out; distinct by hash of the op list")
@@ -35,6 +37,17 @@ CORPUS = [
                 "now", "write w 1 1", "now", "now", "write w 1 2", "now", "now", "write w 2 3", "now", "now", "write w 1 4", "now",
                 "reader r sub t2 reliability=reliable history=keep_all durability=transient_local",
                 "clear-faults", "release", "advance 2000000000", "now", "take r"],
+    # the blocking time is counted from the clock, not from the sample's source timestamp (old and future stamps)
+    TEMPLATE + ["writer w pub t1 reliability=reliable history=keep_last:1 max_blocking=300000000",
+                "reader r sub t2 reliability=reliable history=keep_all", "hold ACKNACK user", "now", "write w 1 1", "now",
+                "now", "write w 1 2 ts=-5000000000", "now", "now", "write w 1 3 ts=5000000000", "now",
+                "drop-if ACKNACK user times=1", "hold-off", "release", "now", "write w 1 4 ts=-5000000000", "now",
+                "now", "write w 1 5 ts=-5000000000", "now", "clear-faults", "release", "advance 2000000000", "now", "take r"],
+    # the instance of a blocked write is unregistered while the write is parked (two calls in flight): it keeps waiting
+    TEMPLATE + ["writer w pub t1 reliability=reliable history=keep_last:1 max_blocking=200000000",
+                "reader r sub t2 reliability=reliable history=keep_all", "hold ACKNACK user", "now", "write w 1 1", "now",
+                "now", "write-bg w 1 2", "unregister w 1", "advance 60000000", "now", "join", "now",
+                "lookup w 1", "clear-faults", "release", "advance 2000000000", "now", "take r"],
 ]
 
 oracle = c27_oracle
